@@ -82,6 +82,8 @@ func genQCfg(rc *RunCtx) QCfg {
 		c.MemQueueSize = 10000
 	case "C07":
 		c.TLS = r.Chance(1, 2)
+	case "C03":
+		c.Restarts = r.Pick(0, 1, 2)
 	case "C13":
 		// separate fault configuration: writes to a topic's disk queue fail now and then
 		// (the publisher is told; nothing may be counted for a refused publish)
@@ -111,6 +113,7 @@ func qWeightsFor(prop string, r *PRNG) qWeights {
 		w.pause, w.unpause = 0, 0
 	case "C03":
 		w.rdy, w.cls, w.pause, w.unpause, w.sub = 20, 4, 6, 8, 10
+		w.restart = 1 // a paused topic/channel stays paused across a graceful restart
 	case "C04":
 		w.req, w.touch, w.adv, w.burst = 16, 12, 30, 5
 		w.pause, w.unpause, w.closeC = 0, 0, 1
@@ -175,6 +178,9 @@ func genQOps(rc *RunCtx, c QCfg) []Op {
 			o = Op{Kind: "pub", A: int64(r.Pick(0, 1, 2, 0, 1, 2, 3, 4, 5)) | int64(genSizeClass(r, rc.Prop))<<8, B: int64(r.Intn(8))}
 			k := r.Weighted([]int{30, 12, 8, 14, 6, 6, 6})
 			o.C = int64(k)
+			if k == 3 && (rc.Prop == "C07" || rc.Prop == "C01" || rc.Prop == "ALL") && r.Chance(1, 6) {
+				o.S = "abort"
+			}
 			switch k {
 			case 1, 4, 5:
 				o.D = int64(r.Range(1, 6))
